@@ -3,6 +3,8 @@ import PartituraModel.Model.PerfMidi
 import PartituraModel.Model.PerfMidiRegen
 import PartituraModel.Model.PerfObject
 import PartituraModel.Model.PerfFloat
+import PartituraModel.Model.PerfIds
+import PartituraModel.Model.PerfIter
 
 open Wire Model Model.PerfMidi
 
@@ -229,6 +231,12 @@ def handle (ts : List String) : String :=
     orErr <| (run (do let a ← pPerfArg; let os ← list pSaveOpts; pure (a, os)) rest).bind fun (a, os) =>
       if os.any (fun o => o.mpq = 0) then none else
       some (fmtList fmtFile (runSaves quantF a os).2)
+  | "isaves" :: rest =>
+    -- isaves foreign parts options -> [file or err], every save of ONE one-shot iterable of these parts (round 6)
+    orErr <| (run (do let f ← bool; let ps ← list pPart; let os ← list pSaveOpts; pure (f, ps, os)) rest).bind
+      fun (f, ps, os) =>
+        if os.any (fun o => o.mpq = 0) then none else
+        some (fmtList fmtFile (runOneShot quantF ⟨ps, f⟩ os).2)
   | "exp" :: rest =>
     -- exp ppq mpq merge parts  ->  (type,[tracks in delta times]); the ticks in binary64 (`quantF`)
     orErr <| (run (do let ppq ← nat; let mpq ← nat; let m ← bool; let ps ← list pPart
@@ -237,21 +245,22 @@ def handle (ts : List String) : String :=
       let r := exportFile (quantF mpq ppq) mpq m ps
       some (fmtTuple [fmtNat r.1, fmtList fmtTrack r.2])
   | "load" :: rest =>
-    orErr <| (run pLoad rest).bind fun (ppq, _, m, tracks) =>
+    orErr <| (run pLoad rest).bind fun (ppq, d, m, tracks) =>
       if ppq = 0 then none else
-      let kept := loadFile m tracks
+      -- round 6 (fixes/C06-8): the notes in the order of their final seconds, as the loader computes them
+      let kept := loadFileS (secondsAtF d (loaderTracks m tracks) ppq) m tracks
       some (fmtList fmtPartInt (kept.zip ((loadNumbers kept).zip (loadMetaNumbers kept))))
   | "loadt" :: rest =>
     orErr <| (run pLoad rest).bind fun (ppq, d, m, tracks) =>
       if ppq = 0 then none else
       let sec := secondsAt d (loaderTracks m tracks) ppq
-      some (fmtList (fmtPartSec sec) (loadFile m tracks))
+      some (fmtList (fmtPartSec sec) (loadFileS (secondsAtF d (loaderTracks m tracks) ppq) m tracks))
   | "loadf" :: rest =>
     -- the seconds of every loaded event as the loader computes them, in binary64 (`secondsAtF`): compared exactly
     orErr <| (run pLoad rest).bind fun (ppq, d, m, tracks) =>
       if ppq = 0 then none else
       let sec := secondsAtF d (loaderTracks m tracks) ppq
-      some (fmtList (fmtPartSec sec) (loadFile m tracks))
+      some (fmtList (fmtPartSec sec) (loadFileS sec m tracks))
   | "sil" :: rest =>
     -- load_performance(first_note_at_zero=True): integer view of all parts
     orErr <| (run pLoad rest).bind fun (ppq, d, m, tracks) =>
